@@ -233,13 +233,13 @@ def lit_value(v):
 BAD_OBJECTS = {
     "Union": Union, "Optional": Optional, "Literal": Literal, "ClassVar": ClassVar, "Final": Final,
     "Annotated": Annotated, "InitVar": InitVar, "NewType": NewType, "TypeVar": TypeVar,
-    "five": 5, "fwd": "int", "float_obj": 3.5, "empty_list_obj": [],
+    "five": 5, "fwd": "int", "float_obj": 3.5,
 }
 BAD_KIND = {
     "Union": "NotSubscribedError", "Optional": "NotSubscribedError", "Literal": "NotSubscribedError",
     "ClassVar": "NotSubscribedError", "Final": "NotSubscribedError", "Annotated": "NotSubscribedError",
     "InitVar": "NotSubscribedError", "NewType": "ValueError", "TypeVar": "ValueError",
-    "five": "ValueError", "fwd": "ValueError", "float_obj": "ValueError", "empty_list_obj": "ValueError",
+    "five": "ValueError", "fwd": "ValueError", "float_obj": "ValueError",
 }
 
 
@@ -449,7 +449,9 @@ class Real:
 
     def canon_norm(self, n):
         if isinstance(n, self.NormTV):
-            return {"tv": id(n.origin)}
+            # modelled as the node whose origin is the variable (origin = var, args = ())
+            _KEEP_ALIVE.append(n.origin)
+            return {"o": {"obj": id(n.origin)}, "args": []}
         if isinstance(n, self.BaseNormType):
             o = self.canon_origin(n.origin)
             if o == "literal":
